@@ -14,6 +14,9 @@ FIELD = MOD + '/internal/fiat/secp256k1montgomery.'
 SCALAR = MOD + '/internal/fiat/secp256k1montgomeryscalar.'
 
 
+_PRE_PROVEN = set()
+
+
 def split_limbs(v, n=4):
     if isinstance(v, tm.T):
         return [tm.extract(v, 64 * i + 63, 64 * i) for i in range(n)]
@@ -56,7 +59,15 @@ def install_value_model(m, mul='exact', which=('field', 'scalar'), check_pre=Tru
         def c_tomont(m, a, mod=mod):
             v = _ld(m, a[1])
             if check_pre and isinstance(v, tm.T):
-                m.ctx.check(tm.ult(v, mod, 256), 'pre:ToMontgomery-arg<m')
+                g = tm.ult(v, mod, 256)
+                if isinstance(g, tm.T) and g.id not in _PRE_PROVEN:
+                    # holds unconditionally? (decided once per distinct term by the in-process solver)
+                    if m.ctx.ex.psolver.check([tm.bnot(g)]) == 'unsat':
+                        _PRE_PROVEN.add(g.id)
+                    else:
+                        m.ctx.check(g, 'pre:ToMontgomery-arg<m')
+                elif not isinstance(g, tm.T) and not g:
+                    m.ctx.check(False, 'pre:ToMontgomery-arg<m')
             elif check_pre and v >= mod:
                 raise X.GoPanic("contract violation: ToMontgomery argument >= m")
             _st(m, a[0], v)
